@@ -196,7 +196,31 @@ fn main() {
                             let run = opt::run_case(&spec);
                             current.lock().unwrap()[ti] = None;
                             opt::write_case(&run, &mut cf);
-                            let (findings, st) = opt::monitor(&run);
+                            let (mut findings, st) = opt::monitor(&run);
+                            // C20: with a convergence threshold the run is an exact PREFIX of the run without it (same
+                            // proposals, bit for bit, up to where it stops)
+                            if spec.kv.get("conv").map(|c| c != "-").unwrap_or(false) && run.outcome == "ok" && !spec.kv.contains_key("reuse") {
+                                let twin_text: String = l.split(' ').map(|t| if t.starts_with("conv=") { "conv=-".to_string() } else { t.to_string() }).collect::<Vec<_>>().join(" ");
+                                let twin = opt::run_case(&Spec::parse(&twin_text));
+                                if twin.outcome == "ok" {
+                                    let n = if st.converged_early { run.calls.len() } else { run.calls.len().min(twin.calls.len()) };
+                                    let same = |a: f64, b: f64| a.to_bits() == b.to_bits() || (a.is_nan() && b.is_nan());
+                                    for k in 0..n.min(twin.calls.len()) {
+                                        let (x, y) = (&run.calls[k].vec, &twin.calls[k].vec);
+                                        if x.len() != y.len() || x.iter().zip(y.iter()).any(|(a, b)| !same(*a, *b)) {
+                                            if findings.len() < 20 {
+                                                findings.push(crate::common::Finding { property: "C20", what: format!(
+                                                    "with the convergence threshold the run is not a prefix of the run without it: score() call {} sees {:?}, without the threshold {:?}", k, x, y) });
+                                            }
+                                            break;
+                                        }
+                                    }
+                                    if !st.converged_early && run.calls.len() != twin.calls.len() && findings.len() < 20 {
+                                        findings.push(crate::common::Finding { property: "C20", what: format!(
+                                            "a run that did not stop early made {} score() calls with the threshold and {} without it", run.calls.len(), twin.calls.len()) });
+                                    }
+                                }
+                            }
                             rep.push(format!(
                                 "M {} | outcome={} calls={} steps={} accepts={} rejects={} none={} clamped={} boundary={} loops={} early={} amb={} desync={}",
                                 l, run.outcome.split(' ').next().unwrap_or(""), run.calls.len(), st.steps, st.accepts, st.rejects,
